@@ -273,6 +273,14 @@ int _GD_CalculateEntry(DIRFILE *restrict D, gd_entry_t *restrict E, int err)
   switch(E->field_type) {
     case GD_RAW_ENTRY:
       e = _GD_GetScalar2(D, E, 0, GD_UINT_TYPE, &E->EN(raw,spf), err);
+      /* a literal spf of zero is rejected by the parser; so must one supplied
+       * by a scalar field be (everything divides by spf) */
+      if (!e && E->scalar[0] && E->EN(raw,spf) == 0) {
+        e = 1;
+        if (err)
+          _GD_SetError(D, GD_E_BAD_SCALAR, GD_E_SCALAR_TYPE, E->field, 0,
+              E->scalar[0]);
+      }
       break;
     case GD_POLYNOM_ENTRY:
       for (i = 0; i <= E->EN(polynom,poly_ord); ++i) {
